@@ -217,15 +217,20 @@ Proof.
   split; [apply sinv_increment; exact Hs|exact Hh].
 Qed.
 
+Lemma INV_advance ih ivs s : INV ih ivs s -> INV ih ivs (advance_voting_round s).
+Proof. intros H. exact (INV_increment ih ivs (ev_w s (EvNil (k_vot s))) H). Qed.
+Lemma INV_jump ih ivs s : INV ih ivs s -> INV ih ivs (jump_voting_round s).
+Proof. intros H. exact (INV_increment ih ivs s H). Qed.
+
 Lemma INV_check_voting ih ivs s s' :
   INV ih ivs s -> check_voting_precommit_shift s = Ok s' -> INV ih ivs s'.
 Proof.
-  intros H. unfold check_voting_precommit_shift, bind, advance_voting_round.
+  intros H. unfold check_voting_precommit_shift, bind.
   destruct (byz_majority _) as [maj|] eqn:Hmaj; [|discriminate].
   destruct (_ <? maj) eqn:Hlt.
-  - destruct (_ =? _); intros E; inversion E; subst; [apply INV_increment|]; exact H.
+  - destruct (_ =? _); intros E; inversion E; subst; [apply INV_advance|]; exact H.
   - destruct (sm_mpc _) eqn:Hm.
-    + intros E; inversion E; subst. apply INV_increment; exact H.
+    + intros E; inversion E; subst. apply INV_advance; exact H.
     + rewrite <- Hm in *. destruct (find _ _) as [p|] eqn:Hf; intros E; inversion E; subst; [|exact H].
       pose proof (find_in _ _ _ Hf) as Hin.
       pose proof (find_some _ _ Hf) as [_ Heq]. apply bytes_eqb_eq in Heq.
@@ -236,21 +241,21 @@ Qed.
 Lemma INV_check_next_round ih ivs s s' :
   INV ih ivs s -> check_next_round_precommit_shift s = Ok s' -> INV ih ivs s'.
 Proof.
-  intros H. unfold check_next_round_precommit_shift, bind, jump_voting_round.
+  intros H. unfold check_next_round_precommit_shift, bind.
   destruct (byz_minority _) as [mn|]; [|discriminate].
   destruct (_ <? mn); [intros E; inversion E; subst; exact H|].
   destruct (byz_majority _) as [maj|]; [|discriminate].
   destruct (maj <=? _).
-  - apply INV_check_voting, INV_increment, H.
-  - intros E; inversion E; subst. apply INV_increment, H.
+  - apply INV_check_voting, INV_jump, H.
+  - intros E; inversion E; subst. apply INV_jump, H.
 Qed.
 
 Lemma INV_check_prevote ih ivs s s' :
   INV ih ivs s -> check_prevote_shift s = Ok s' -> INV ih ivs s'.
 Proof.
-  intros H. unfold check_prevote_shift, bind, jump_voting_round.
+  intros H. unfold check_prevote_shift, bind.
   destruct (byz_minority _) as [mn|]; [|discriminate].
-  destruct (_ <? mn); intros E; inversion E; subst; [exact H|apply INV_increment, H].
+  destruct (_ <? mn); intros E; inversion E; subst; [exact H|apply INV_jump, H].
 Qed.
 
 (** ** Votes *)
@@ -271,7 +276,7 @@ Proof.
   set (sm' := if kind =? KPrevote then sum_set_prevotes _ _ _ else _).
   set (v2 := bump (with_sum v1 sm')).
   set (s1 := put_view s vid v2).
-  set (s2 := log_w (set_rounds s1 _) _).
+  set (s2 := ev_w (log_w (set_rounds s1 _) _) _).
   (* the intermediate state satisfies everything *)
   assert (H2 : INV ih ivs s2).
   { assert (Hpos : pos_eq v v2) by (unfold v2, v1; destruct (kind =? KPrevote); repeat split).
@@ -388,7 +393,7 @@ Proof.
       eapply auth_view_same; [apply same_votes_with_phs|]. apply get_view_auth; exact Ha.
     - unfold s1, put_view, get_view. destruct Hs as [Sv Sn].
       destruct Hvid as [->|[->| ->]]; cbn; (split; [split; assumption|exact Hh]). }
-  set (s2 := log_w (set_rounds s1 _) _).
+  set (s2 := ev_w (log_w (set_rounds s1 _) _) _).
   assert (I2 : INV ih ivs s2) by (eapply INV_frame_rounds; [apply frame_set_rounds| | | |exact I1]; reflexivity).
   destruct (negb _); [intros E; inversion E; subst; exact I2|].
   assert (I3 : INV ih ivs (backfill_commit s2 p)).
